@@ -122,7 +122,8 @@ fn check_string(value: &[u8]) -> (u64, Vec<Violation>) {
                 }
             };
             let uses_u = text.contains("\\u{");
-            let modes: &[Mode] = if uses_u || shape.starts_with('`') { &[Mode::Luau] } else { &[Mode::Luau, Mode::Lua51] };
+            // a literal that is not an interpolated string must mean the same under both dialects
+            let modes: &[Mode] = if shape.starts_with('`') { &[Mode::Luau] } else { &[Mode::Luau, Mode::Lua51] };
             for mode in modes {
                 let problem = match decode_return_string(&text, *mode) {
                     Ok(back) if back == value => {
@@ -147,8 +148,20 @@ fn check_string(value: &[u8]) -> (u64, Vec<Violation>) {
                     Err(e) => Some(format!("cannot be read back: {}", e)),
                 };
                 if let Some(p) = problem {
+                    // known finding: non-ASCII characters are written `\u{...}`, an escape Lua 5.1 does not have. Repair model:
+                    // with every such escape replaced by the character itself the same text reads back correctly under Lua 5.1
+                    let finding = if *mode == Mode::Lua51 && uses_u {
+                        let re = regex::Regex::new(r"\\u\{([0-9a-fA-F]+)\}").unwrap();
+                        let repaired = re.replace_all(&text, |c: &regex::Captures| u32::from_str_radix(&c[1], 16).ok().and_then(char::from_u32).map(|ch| ch.to_string()).unwrap_or_default()).into_owned();
+                        match decode_return_string(&repaired, Mode::Lua51) {
+                            Ok(back) if back == value => Some("non-ascii-written-as-unicode-escape-unknown-to-lua51".to_owned()),
+                            _ => None,
+                        }
+                    } else {
+                        None
+                    };
                     v.push(Violation {
-                        finding: None,
+                        finding,
                         summary: format!("string {:?} written by {} as {:?} (shape {}) {} under {:?} rules", value, gen.name(), text, shape, p, mode),
                         replay: json!({"kind": "string literal", "bytes": value, "shape": shape, "generator": gen.name(), "text": text, "mode": format!("{:?}", mode)}),
                     });
